@@ -977,7 +977,77 @@ func c09CaseA(variant int, q c09Req, table [][]string, prog []string) []string {
 		proto.L(q.creds), proto.B(q.authz), proto.B(q.body), c09Lists(table), p}
 }
 
+// c09HistoryShapes: accessor sequences in which a stage is evaluated a second time although the
+// request value holds no result of it — after a failure, after ResetAuth, on a stale value, after
+// a failed negotiation or a header that does not parse, after the body was consumed. {op, back}.
+var c09HistoryShapes = [][][2]int{
+	{{4, 0}, {4, 0}},
+	{{4, 0}, {6, 0}, {4, 0}},
+	{{4, 0}, {6, 0}, {4, 0}, {4, 0}},
+	{{4, 0}, {4, 0}, {6, 0}, {4, 0}},
+	{{4, 0}, {5, 0}, {4, 0}},
+	{{4, 0}, {6, 0}, {5, 0}, {4, 0}},
+	{{1, 0}, {4, 0}, {4, 1}},
+	{{1, 0}, {4, 0}, {6, 0}, {4, 2}, {4, 1}},
+	{{4, 0}, {4, 1}, {4, 0}},
+	{{4, 0}, {6, 1}, {4, 0}, {4, 2}},
+	{{4, 0}, {6, 0}, {6, 0}, {4, 0}},
+	{{1, 0}, {4, 1}, {4, 1}},
+	{{2, 0}, {2, 0}, {5, 0}},
+	{{3, 0}, {3, 1}, {3, 0}, {5, 0}},
+	{{3, 0}, {5, 1}, {3, 2}},
+	{{5, 0}, {5, 1}, {5, 0}},
+	{{1, 0}, {5, 0}, {5, 1}, {5, 1}},
+	{{5, 0}, {4, 1}, {5, 1}, {4, 0}},
+}
+
+// c09GenHistory: an operation with security (half of the time the ones where authentication is
+// optional), for every alternative credentials that are wrong, right, absent or accepted with a nil
+// principal, and one of the history shapes with a few other calls strewn in.
+func c09GenHistory(r *proto.Rng) []string {
+	q := c09GenReq(r, "")
+	id := r.Pick("7", "42")
+	switch r.Intn(8) {
+	case 0, 1, 2:
+		q.method, q.path = "DELETE", "/api/items/"+id
+	case 3, 4:
+		q.method, q.path = "POST", "/api/items"
+	case 5, 6:
+		q.method, q.path = "PUT", "/api/items/"+id
+	default:
+		q.method, q.path, q.query = "GET", "/api/items", "limit=5"
+	}
+	q.creds = nil
+	for _, s := range c09Schemes {
+		switch r.Intn(8) {
+		case 0, 1:
+		case 2, 3, 4:
+			q.creds = append(q.creds, s+"="+r.Pick("palice", "pbob"))
+		case 5, 6:
+			q.creds = append(q.creds, s+"="+r.Pick("e401", "e403", "eplain"))
+		default:
+			q.creds = append(q.creds, s+"=z")
+		}
+	}
+	var table [][]string
+	for i, n := 0, 1+r.Intn(3); i < n; i++ {
+		table = append(table, c09OfferMenu[r.Intn(len(c09OfferMenu))])
+	}
+	shape := c09HistoryShapes[r.Intn(len(c09HistoryShapes))]
+	var prog []string
+	for _, in := range shape {
+		for r.Chance(1, 5) {
+			prog = append(prog, c09Instr([]int{1, 2, 3, 5, 6}[r.Intn(5)], r.Intn(len(table)), 0))
+		}
+		prog = append(prog, c09Instr(in[0], r.Intn(len(table)), in[1]))
+	}
+	return c09CaseA(r.Intn(2), q, table, prog)
+}
+
 func c09GenA(r *proto.Rng) []string {
+	if r.Chance(1, 5) {
+		return c09GenHistory(r)
+	}
 	q := c09GenReq(r, "")
 	var table [][]string
 	for i, n := 0, 1+r.Intn(3); i < n; i++ {
@@ -1006,7 +1076,16 @@ var c09Fixed = []c09Req{
 	{method: "GET", path: "/api/items/42", accs: []string{"text/plain"}},
 	{method: "POST", path: "/api/items", cts: []string{";;"}, creds: []string{"key=pbob"}, authz: "d403", body: "x"},
 	{method: "GET", path: "/api/nope"},
+	// authentication optional (credentialed alternative first, anonymous second): wrong, right, no credentials
+	{method: "DELETE", path: "/api/items/7", accs: []string{"text/plain"}, creds: []string{"key=e401"}},
+	{method: "DELETE", path: "/api/items/7", query: "q=x", creds: []string{"key=palice"}},
+	{method: "DELETE", path: "/api/items/7", creds: []string{"basic=pbob"}},
+	// the same with the anonymous alternative first
+	{method: "POST", path: "/api/items", cts: []string{"text/plain"}, creds: []string{"key=e403"}, body: "hello"},
 }
+
+// the fixed requests the quick tier enumerates all short sequences on
+var c09QuickFixed = []int{0, 1, 2, 7, 8}
 
 func c09Gen(r *proto.Rng, n int, tier string, emit func(in ...string)) {
 	if tier == "race" {
@@ -1016,12 +1095,16 @@ func c09Gen(r *proto.Rng, n int, tier string, emit func(in ...string)) {
 		return
 	}
 	// every sequence of the six accessors up to a length, threaded, on the fixed requests
-	maxLen, nreq := 3, 3
+	maxLen, fixed := 3, c09QuickFixed
 	if tier == "thorough" {
-		maxLen, nreq = 4, len(c09Fixed)
+		maxLen, fixed = 4, nil
+		for i := range c09Fixed {
+			fixed = append(fixed, i)
+		}
 	}
 	table := [][]string{{"text/plain", "application/json"}}
-	for qi := 0; qi < nreq; qi++ {
+	for _, qi := range fixed {
+		qi := qi
 		var enum func(prefix []string)
 		enum = func(prefix []string) {
 			if len(prefix) > 0 {
@@ -1096,4 +1179,9 @@ var c09Corpus = [][]string{
 	// anonymous access is not memoised; ResetAuth re-arms authentication only
 	c09CaseA(0, c09Fixed[1], [][]string{{"application/json"}}, []string{c09Instr(4, 0, 0), c09Instr(4, 0, 0), c09Instr(5, 0, 0), c09Instr(6, 0, 0), c09Instr(4, 0, 0), c09Instr(5, 0, 0)}),
 	c09CaseA(1, c09Fixed[2], [][]string{{"application/xml"}, {"text/plain"}}, []string{c09Instr(4, 0, 0), c09Instr(3, 0, 0), c09Instr(3, 1, 0), c09Instr(3, 0, 0), c09Instr(6, 0, 0), c09Instr(4, 0, 0), c09Instr(4, 0, 0)}),
+	// authentication optional: wrong credentials fail, and fail again (route.Authenticator is set by now)
+	c09CaseA(1, c09Fixed[7], [][]string{{"text/plain"}}, []string{c09Instr(4, 0, 0), c09Instr(4, 0, 0), c09Instr(6, 0, 0), c09Instr(4, 0, 0)}),
+	// … the right ones yield the principal again after ResetAuth, on the new and on a stale value
+	c09CaseA(0, c09Fixed[8], [][]string{{"text/plain"}}, []string{c09Instr(4, 0, 0), c09Instr(6, 0, 0), c09Instr(4, 0, 0), c09Instr(4, 0, 3)}),
+	c09CaseA(0, c09Fixed[10], [][]string{{"text/plain"}}, []string{c09Instr(4, 0, 0), c09Instr(5, 0, 0), c09Instr(4, 0, 0), c09Instr(5, 0, 2)}),
 }
